@@ -194,6 +194,35 @@ func aliasProbe(r Req) []string {
 	} else if after := digest(bc); after != before {
 		out = append(out, fmt.Sprintf("aliasing/pixels: the returned Aztec barcode changed after the caller overwrote its buffer (%s)", r))
 	}
+	// the caller reuses its buffer for the next payload: the same slice, new bytes.  The
+	// result must be that of the new bytes (compared with an encode from a fresh slice).
+	for round := 0; round < 2; round++ {
+		var again, fresh barcode.Barcode
+		now := append([]byte{}, data...)
+		pv, _ := fw.Call(func() {
+			again, _ = aztec.Encode(data, int(r.int(0)), int(r.int(1)))
+			fresh, _ = aztec.Encode(append([]byte{}, now...), int(r.int(0)), int(r.int(1)))
+		})
+		if pv != nil {
+			break
+		}
+		if (again == nil) != (fresh == nil) {
+			out = append(out, fmt.Sprintf("buffer-reuse/acceptance: encoding from a reused buffer and from a fresh copy of the same bytes disagree on acceptance (%s)", r))
+			break
+		}
+		if again != nil {
+			if again.Content() != string(now) {
+				out = append(out, fmt.Sprintf("buffer-reuse/content: encoding from a reused buffer reports Content() %s, the buffer holds %s", short(again.Content()), short(string(now))))
+			} else if msg := verifyDecoded(Req{Fam: "aztec", S: now, I: r.I, Scheme: -1}, again); msg != "" {
+				out = append(out, fmt.Sprintf("buffer-reuse/symbol: encoding %s from a reused buffer: %s", short(string(now)), msg))
+			} else if digest(again) != digest(fresh) {
+				out = append(out, fmt.Sprintf("buffer-reuse/pixels: encoding the new bytes from the reused buffer differs from encoding them from a fresh slice (%s)", r))
+			}
+		}
+		for i := range data {
+			data[i] = byte(int(data[i])*7 + i + round)
+		}
+	}
 	return out
 }
 
